@@ -281,7 +281,7 @@ def _r3(run):
         elif "coordsys" in fields and stores.get("_coordsys") is not None:
             v = stores["_coordsys"]
             cs = ("sym", "coordsys")
-            ok = v == cs or (v[0] == "ite" and v[3] == cs and "ASTRONOMICAL" in show(v[2]) and v[1] == ("op", "cmp:Is", (cs, sym.NONE)))
+            ok = v == cs or (v[0] == "ite" and v[3] == cs and "ASTRONOMICAL" in show(v[2]) and v[1] == sym.cmp("Is", cs, sym.NONE))
             if ok:
                 run.holds("C06.R3", f, None, "Pyramid.%s stores depth/filter and the caller's coordinate system (default ASTRONOMICAL)" % name)
             else:
@@ -314,7 +314,7 @@ def _r4(run):
     g = project.fn(P + ".Pyramid._generator")
     r = evp.run(g.node)
     none_yields = [(pc, t, n) for pc, t, n in r.yields if t[0] == "tuple" and len(t[1]) == 2 and t[1][1] == sym.NONE
-                   and any(c[0] == ("op", "cmp:Is", (("attr", ("sym", "self"), "_coordsys"), sym.NONE)) and c[1] is False for c in pc if c[0] != "loop")]
+                   and any(c[0] == sym.cmp("Is", ("attr", ("sym", "self"), "_coordsys"), sym.NONE) and c[1] is False for c in pc if c[0] != "loop")]
     vc = project.fn(T + ".ToastSampler.visit_callback")
     tile_p = vc.params()[2]
     # is the tile dereferenced without a None guard?
